@@ -1237,7 +1237,7 @@ def __lshift__(self, other, start_pos=None):
 
                 # If this is a new payload, we may have to track the
                 # insert/append
-                elif a_write_traced:
+                elif a_write_traced or a_read_traced:
                     # If we just inserted into a compressed fiber, save the
                     # relevant information
                     if inserting and new_a_payload:
@@ -1252,10 +1252,11 @@ def __lshift__(self, other, start_pos=None):
                         write_pos = a_pos - len(to_insert)
 
                     # Write the new value
-                    iteration[Metrics.getIndex(rank)] += 1
-                    Metrics.addUse(rank, b_coord, write_pos, type_=a_write_trace,
-                        iteration_num=iteration)
-                    Metrics.incIter(rank)
+                    if a_write_traced:
+                        iteration[Metrics.getIndex(rank)] += 1
+                        Metrics.addUse(rank, b_coord, write_pos, type_=a_write_trace,
+                            iteration_num=iteration)
+                        Metrics.incIter(rank)
 
                 a_pos += 1
 
